@@ -20,12 +20,12 @@ def check(run, tier, seed, replay=None, only=None):
     k = 1 if quick else 6
     stages = []
     for s in range(2 * k):
-        stages.append(("static-%d" % s, ["--mode", "static", "--budget", 25, "--seed", seed * 100 + s]))
+        stages.append(("static-%d" % s, ["--mode", "static", "--budget", 50, "--seed", seed * 100 + s]))
         stages.append(("gate-%d" % s, ["--mode", "gate", "--budget", 300, "--seed", seed * 100 + 20 + s]))
     for s in range(2 * k):
         stages.append(("range-%d" % s, ["--mode", "range", "--budget", 10 if quick else 30, "--n", 100000, "--seed", seed * 100 + 40 + s]))
-        stages.append(("step-%d" % s, ["--mode", "step", "--budget", 30 if quick else 80, "--seed", seed * 100 + 60 + s]))
-        stages.append(("agc-%d" % s, ["--mode", "agc", "--budget", 12 if quick else 40, "--seed", seed * 100 + 80 + s]))
+        stages.append(("step-%d" % s, ["--mode", "step", "--budget", 80 if quick else 200, "--seed", seed * 100 + 60 + s]))
+        stages.append(("agc-%d" % s, ["--mode", "agc", "--budget", 24 if quick else 60, "--seed", seed * 100 + 80 + s]))
     n = simple.run_check(run, tier, seed, replay, "dyn_drv", "Trace_Dynamics.tla",
                          [("MC_Dynamics.tla", "MC_Dynamics.cfg", "MC_Dynamics (curve continuity / monotonicity / no amplification; gate clauses)")],
                          stages)
